@@ -140,8 +140,15 @@ func NewHTTPReverseProxy(option HTTPReverseProxyOptions, vhostRouter *Routers) *
 			_, _ = rw.Write(getNotFoundPageContent())
 		},
 	}
-	rp.proxy = h2c.NewHandler(proxy, &http2.Server{})
+	rp.proxy = proxy
 	return rp
+}
+
+// Handler returns the handler to be served on the vhost HTTP listener. h2c (prior knowledge and Upgrade)
+// is handled in front of ServeHTTP, so every HTTP/2 stream is routed and authenticated on its own instead
+// of inheriting the route (and the passed credential check) of the request that opened the connection.
+func (rp *HTTPReverseProxy) Handler() http.Handler {
+	return h2c.NewHandler(rp, &http2.Server{})
 }
 
 // Register register the route config to reverse proxy
